@@ -70,6 +70,8 @@ Inputs == Bind \cup Shape \cup Trip \cup Lens \cup Multi
 Cfgs   == [now : Nows]
 CaseOK(cfg, in) == (in.sub # "bind") => cfg.now = 8      \* the clock only matters for the binding sub-space
 
+\* (position 99 stands for a clock that reads Go's zero time, with an SP certificate valid around the machine's wall clock:
+\* outside the window like any other instant before NotBefore)
 InWindow(now) == 4 <= now /\ now <= 12
 
 \* getDecryptCert (decode_response.go:106-148)
